@@ -39,6 +39,8 @@ type c12TCPCase struct {
 	ErrAt       int    `json:"err_at"`
 	ErrWithData bool   `json:"err_with_data"`
 	FeedFirst   bool   `json:"feed_before_start"`
+	EmptyA      int    `json:"zero_length_reads_on_a"`
+	EmptyB      int    `json:"zero_length_reads_on_b"`
 }
 
 var c12TCPOrders = []string{"a-first", "b-first", "simul", "a-readerr", "b-readerr", "a-writeerr", "b-writeerr"}
@@ -61,6 +63,10 @@ func c12GenTCP(r *rand.Rand, idx int, thorough bool) c12TCPCase {
 		Order:     c12TCPOrders[idx%len(c12TCPOrders)],
 		FeedFirst: r.Intn(2) == 0,
 	}
+	// readers that now and then return (0, nil) (transports that swallow control / empty
+	// frames): totals around and beyond 100 over the lifetime of the connection
+	empt := []int{0, 0, 0, 0, 7, 100, 101, 150, 400}
+	cs.EmptyA, cs.EmptyB = empt[r.Intn(len(empt))], empt[r.Intn(len(empt))]
 	big := cs.LenAB
 	if cs.LenBA > big {
 		big = cs.LenBA
@@ -125,8 +131,8 @@ func c12RunTCP(run *vk.Run, cs c12TCPCase, budget *c12Budget) {
 	r := rand.New(rand.NewSource(int64(cs.Seed)))
 	chA := vk.RandPartition(r, len(offAB), cs.ChunkMax)
 	chB := vk.RandPartition(r, len(offBA), cs.ChunkMax)
-	feedA := func() { a.FeedChunks(offAB, chA); a.FeedEnd(endA) }
-	feedB := func() { b.FeedChunks(offBA, chB); b.FeedEnd(endB) }
+	feedA := func() { a.FeedChunksWithEmpties(offAB, chA, cs.EmptyA, r); a.FeedEnd(endA) }
+	feedB := func() { b.FeedChunksWithEmpties(offBA, chB, cs.EmptyB, r); b.FeedEnd(endB) }
 
 	detail := func(extra map[string]any) map[string]any {
 		m := map[string]any{"case": cs, "chunks_a_head": c12Head(chA, 16), "chunks_b_head": c12Head(chB, 16),
@@ -286,6 +292,13 @@ func c12RunTCP(run *vk.Run, cs c12TCPCase, budget *c12Budget) {
 	if errCase {
 		run.Count("error_cases", 1)
 	}
+	run.Count("zero_length_reads_served", a.emptyReads.Load()+b.emptyReads.Load())
+	if a.emptyReads.Load() >= 100 {
+		run.Count("directions_with_ge100_zero_length_reads", 1)
+	}
+	if b.emptyReads.Load() >= 100 {
+		run.Count("directions_with_ge100_zero_length_reads", 1)
+	}
 	if k := a.deadlineCalls.Load() + b.deadlineCalls.Load(); k > 0 {
 		run.Count("deadline_calls_on_endpoints", k)
 	}
@@ -299,7 +312,7 @@ func TestVerifC12TCP(t *testing.T) {
 	vk.Quiet()
 	run := vk.Start(t, "C12", "tcp-relay")
 	defer run.Finish()
-	run.Rule("iocopy.Bidirectional between two scripted endpoints: payloads 0..256KiB (thorough ..4MiB) per direction, position-coded; seeded read chunking (1B..1MiB chunks); endpoint kinds {plain, CloseWrite, NewReadWriteCloser over plain/over CloseWrite, NewReadWriteCloserWithCloseWrite}; orders {A half-closes first and B answers only after seeing it, B first, simultaneous, read error on A/B (with and without final data), write error on A/B at a seeded offset}; script fed before or after the relay starts. distinct = (order, kindA, kindB, chunk class, size buckets); non-trivial = at least one byte offered")
+	run.Rule("iocopy.Bidirectional between two scripted endpoints: payloads 0..256KiB (thorough ..4MiB) per direction, position-coded; seeded read chunking (1B..1MiB chunks), with 0/7/100/101/150/400 zero-length (0,nil) reads scattered through either side's stream; endpoint kinds {plain, CloseWrite, NewReadWriteCloser over plain/over CloseWrite, NewReadWriteCloserWithCloseWrite}; orders {A half-closes first and B answers only after seeing it, B first, simultaneous, read error on A/B (with and without final data), write error on A/B at a seeded offset}; script fed before or after the relay starts. distinct = (order, kindA, kindB, chunk class, size buckets); non-trivial = at least one byte offered")
 	before := vk.SnapshotGoroutines()
 	r := run.Rand("gen")
 	n := run.Pick(600, 6000)
@@ -327,4 +340,5 @@ func TestVerifC12TCP(t *testing.T) {
 	run.Floor("error_cases", int64(n/10))
 	run.Floor("counters_checked", int64(n/10))
 	run.Floor("direction_delivered_exactly", int64(n))
+	run.Floor("directions_with_ge100_zero_length_reads", int64(n/6))
 }
